@@ -209,12 +209,15 @@ class SweepMon(Ledger):
             else:  # SOO: the value is the reward itself
                 if self.T(X) != 0:
                     return None
-                ys = [y for d, l in L.items() for y in l if d != hx and self.T(y) >= 1]
+                # (partners of the same depth too: SOO compares the leaves of one depth with each other)
+                ys = [y for d, l in L.items() for y in l if self.T(y) >= 1 and y is not X]
                 if not ys:
                     return None
+                same = [y for y in ys if y.get_depth() == hx]
+                if same and rng.random() < 0.5:
+                    ys = same
                 y = max(ys, key=self.value) if top else ys[int(rng.integers(len(ys)))]
-                self.obs["adversarial_exact_ties_made"] += 1
-                return float(self.rewards(y)[0])
+                return self._near(float(self.rewards(y)[0]), rng)
             if not (math.isfinite(by) and math.isfinite(r0)) or abs(r0) > 1e300:
                 return None
             cands, lo, hi = [r0], r0, r0
@@ -223,12 +226,24 @@ class SweepMon(Ledger):
                 cands += [lo, hi]
             for cand in cands:
                 if f(cand) == by:
-                    self.obs["adversarial_exact_ties_made"] += 1
-                    return float(cand)
+                    return self._near(float(cand), rng)
         except Exception:
             return None
         self.obs["adversarial_ties_not_representable"] += 1
         return None
+
+    def _near(self, cand, rng):
+        """an exact tie - or, three times out of ten, a near miss: the reward a few ulps away from the one that ties
+        (values that differ in the last bits are different values; a comparison with a tolerance treats them as equal)"""
+        import numpy as np
+        if rng.random() < 0.3:
+            k = int(rng.integers(1, 5)) * (1 if rng.random() < 0.5 else -1)
+            for _ in range(abs(k)):
+                cand = float(np.nextafter(cand, math.inf if k > 0 else -math.inf))
+            self.obs["adversarial_near_ties_made"] += 1
+            return cand
+        self.obs["adversarial_exact_ties_made"] += 1
+        return cand
 
     def doo_delta(self, h):
         if self.user_delta is not None:
@@ -289,9 +304,13 @@ class SweepMon(Ledger):
         vx = self.value(X)
         best = max(vals)
         self.obs["expansion_values_compared"] += len(vals)
-        if not (vx >= best or close(vx, best)):
+        # SOO's value is the reward itself and DOO's, with a user-supplied delta, the very float sum the algorithm
+        # forms: compared exactly (a reward a few ulps below the best is not the best).  StoSOO's b-value and DOO's
+        # default diameter are recomputed by other expressions than the code's: rel. 1e-9
+        exact = self.fam == "SOO" or (self.fam == "DOO" and self.user_delta is not None)
+        if not (vx >= best or (not exact and close(vx, best))):
             self.v("C08:expanded_leaf_is_not_the_best", value=vx, best=best, depth=X.get_depth(),
-                   candidates=len(vals))
+                   candidates=len(vals), exact_comparison=exact)
         if self.fam == "DOO" and self.exp:
             self.v("C08:DOO_more_than_one_expansion_per_pull")
         if self.fam != "DOO":
@@ -299,7 +318,7 @@ class SweepMon(Ledger):
             prev = self.exp[-1] if self.exp else None
             if prev is not None and prev[0] < X.get_depth():
                 mx = prev[2]
-                if vx < mx and not close(vx, mx):
+                if vx < mx and (exact or not close(vx, mx)):
                     self.v("C08:expanded_value_below_a_shallower_expansion_of_the_same_sweep", value=vx, earlier=mx)
         run_max = vx
         if self.exp and self.exp[-1][0] < X.get_depth():
